@@ -6,13 +6,13 @@ CHECKS = {
          "reference model (mini executor) differential + round trip", "2.4, 3/C01"),
  "C02": ("E1", "generated (schema, document, options) x delivery {library, derive, CLI} x consumer {serde, graphql_client only}: generation must succeed and rustc must accept; syn def/use closure pre-filter over 10-20x more cases, flagged cases compiled",
          "PBT with rustc as oracle + syn def/use closure", "2.4, 3/C02"),
- "C03": ("E1", "every single-point corruption (null/missing at non-null, wrong scalar kind, non-list for list, unknown/swapped __typename) of model-generated conforming payloads against compiled ResponseData types",
+ "C03": ("E1", "every single-point corruption (null/missing at non-null, wrong scalar kind, non-list for list, unknown/swapped __typename) of model-generated conforming payloads against compiled ResponseData types; the uncorrupted payload re-serialises its own __typename at every abstract position",
          "PBT: reference model of single-point corruptions (fault injection on inputs)", "3/C03"),
- "C04": ("E1", "variable assignments from an input-coercion model deserialized into compiled Variables and serialized through build_query; compared with the model's expected wire object with/without skip_serializing_none",
+ "C04": ("E1", "variable assignments from an input-coercion model deserialized into compiled Variables and serialized through build_query; compared with the model's expected wire object with/without skip_serializing_none; null / missing key at non-null members must be refused by Variables",
          "PBT: input-coercion reference model + round trip", "3/C04"),
  "C05": ("E1+E2", "compiled modules must expose the byte-exact document and operation name and a body with exactly variables/query/operationName; in-process selection scenarios (mode x struct/operation name x normalization) checked on parsed tokens",
          "PBT: byte equality with source text + selection model", "3/C05"),
- "C09": ("E1", "the same vectors (payloads, corruptions, assignments) run against a baseline and 2 random wire-neutral option variants of each generated program; outcome class and Ok JSON must be identical",
+ "C09": ("E1", "the same vectors (payloads, corruptions, assignments) run against a baseline and 2 random wire-neutral option variants of each generated program; outcome class and Ok JSON must be identical; a sentinel string that only the user's extern enum type refuses must be refused exactly where the enum is extern; token-level invariance under derive lists / visibility",
          "metamorphic PBT (option change => identical wire results)", "3/C09"),
  "C10": ("E1", "for every generated enum: schema values, near misses, empty, non-ASCII, long and random strings round-trip; schema values map to distinct non-Other variants, everything else to Other(s); non-strings rejected",
          "PBT: identity on strings + variant bijection", "3/C10"),
@@ -38,9 +38,9 @@ CHECKS = {
          "exhaustive enumeration against an independent mapping function", "3/C13"),
  "C16": ("E4+E1", "every JSON kind through the ID helpers in plain / flattened / variant wrapper structs (in-process), and compiled programs with every ID type expression up to depth 3 next to String neighbours in plain, flattened and variant positions",
          "PBT + exhaustive ID expressions against a coercion model", "3/C16"),
- "C17": ("E2", "adversarial grammar (spread cycles, input cycles, deep nesting, degenerate abstract types, broken documents, JSON with missing members) in isolated worker processes with a watchdog; thorough adds a coverage-guided libFuzzer campaign over the same decoder",
+ "C17": ("E2", "adversarial grammar (spread cycles, input cycles, deep nesting, degenerate abstract types, nested repeated variant fragments, object-literal defaults on cyclic inputs, broken documents, JSON with missing members or malformed type references) in isolated worker processes with a watchdog; thorough adds a coverage-guided libFuzzer campaign over the same decoder",
          "PBT + coverage-guided fuzzing (libFuzzer), termination oracle (Ok / Err / panic message; no signal, no hang)", "3/C17"),
- "C19": ("E3", "the CLI binary on generated inputs x flag combinations x placements x formatting; the written file must equal header + tokens of the library called in-process with the harness's own flag table; invalid documents must fail without touching the directory",
+ "C19": ("E3", "the CLI binary on generated inputs x flag combinations x placements x formatting; the written file must equal header + tokens of the library called in-process with the harness's own flag table; invalid documents must fail without touching the directory; a command that does not finish twice (the second time alone) counts as not writing its file",
          "black-box PBT, differential against the library", "3/C19"),
 }
 NOT_YET = {}
